@@ -13,11 +13,11 @@ def TotalPureEs (vs : List Expr) : Prop :=
   ∀ (N : NumOps) (call : CallFn N) (ρ : ExtOracle N) (k : Nat) (env : Env N) (σ : State N),
     ∃ ws, evalEs call ρ k env vs σ = .ok ws σ
 
-variable {N : NumOps} {Q : QRel} {β : CellRel}
+variable {N : NumOps} {Q : QRel} {cx : Cx} {β : CellRel}
 
-theorem SRel.bindLocalsLeft {σ σ' : State N} (h : SRel Q β σ σ') {D : List String} (ns : List String)
+theorem SRel.bindLocalsLeft {σ σ' : State N} (h : SRel Q cx β σ σ') {D : List String} (ns : List String)
     (hns : ∀ n ∈ ns, n ∈ D) (vs : List (Val N)) {l l' : List (String × Nat)} (he : EnvRel β D l l') :
-    SRel Q β (Sem.bindLocals ns vs l σ).2 σ' ∧ EnvRel β D (Sem.bindLocals ns vs l σ).1 l' := by
+    SRel Q cx β (Sem.bindLocals ns vs l σ).2 σ' ∧ EnvRel β D (Sem.bindLocals ns vs l σ).1 l' := by
   induction ns generalizing vs l σ with
   | nil => exact ⟨h, he⟩
   | cons n ns ih =>
@@ -25,9 +25,9 @@ theorem SRel.bindLocalsLeft {σ σ' : State N} (h : SRel Q β σ σ') {D : List 
     exact ih (h.allocLeft _) (fun m hm => hns m (List.mem_cons_of_mem _ hm)) _
       (he.consLeft n _ (hns n List.mem_cons_self))
 
-theorem SRel.bindLocalsRight {σ σ' : State N} (h : SRel Q β σ σ') {D : List String} (ns : List String)
+theorem SRel.bindLocalsRight {σ σ' : State N} (h : SRel Q cx β σ σ') {D : List String} (ns : List String)
     (hns : ∀ n ∈ ns, n ∈ D) (vs : List (Val N)) {l l' : List (String × Nat)} (he : EnvRel β D l l') :
-    SRel Q β σ (Sem.bindLocals ns vs l' σ').2 ∧ EnvRel β D l (Sem.bindLocals ns vs l' σ').1 := by
+    SRel Q cx β σ (Sem.bindLocals ns vs l' σ').2 ∧ EnvRel β D l (Sem.bindLocals ns vs l' σ').1 := by
   induction ns generalizing vs l' σ' with
   | nil => exact ⟨h, he⟩
   | cons n ns ih =>
@@ -37,8 +37,8 @@ theorem SRel.bindLocalsRight {σ σ' : State N} (h : SRel Q β σ σ') {D : List
 
 theorem dropLocal_sound {D D' : List String} {kind : LocalKind} {ns : List TName} {vs : List Expr}
     {rest rest' : List Stmt} (hp : TotalPureEs vs)
-    (hrest : SoundSs Q (ns.map TName.name ++ D) rest rest' D') :
-    SoundSs Q D (.localAssign kind ns vs :: rest) rest' D' :=
+    (hrest : SoundSs Q cx (ns.map TName.name ++ D) rest rest' D') :
+    SoundSs Q cx D (.localAssign kind ns vs :: rest) rest' D' :=
   ⟨fun n hn => hrest.1 n (List.mem_append_right _ hn), fun N call ρ k env env' σ σ' β hc hs he => by
     obtain ⟨ws, hw⟩ := hp N call ρ k env σ
     simp only [execSs, execS, hw, Res.bind]
@@ -48,8 +48,8 @@ theorem dropLocal_sound {D D' : List String} {kind : LocalKind} {ns : List TName
 
 theorem addLocal_sound {D D' : List String} {kind : LocalKind} {ns : List TName} {vs : List Expr}
     {rest rest' : List Stmt} (hp : TotalPureEs vs)
-    (hrest : SoundSs Q (ns.map TName.name ++ D) rest rest' D') :
-    SoundSs Q D rest (.localAssign kind ns vs :: rest') D' :=
+    (hrest : SoundSs Q cx (ns.map TName.name ++ D) rest rest' D') :
+    SoundSs Q cx D rest (.localAssign kind ns vs :: rest') D' :=
   ⟨fun n hn => hrest.1 n (List.mem_append_right _ hn), fun N call ρ k env env' σ σ' β hc hs he => by
     obtain ⟨ws, hw⟩ := hp N call ρ k env' σ'
     simp only [execSs, execS, hw, Res.bind]
